@@ -152,6 +152,9 @@ func makePlaintextRedirects(allConfigs []*SiteConfig) []*SiteConfig {
 	httpsPort := strconv.Itoa(certmagic.HTTPSPort)
 	for i, cfg := range allConfigs {
 		if cfg.TLS.Enabled &&
+			// TLS gets disabled for explicitly-HTTP sites (see MakeServers);
+			// a redirect to them would point back at plain HTTP
+			cfg.Addr.Scheme != "http" && cfg.Addr.Port != httpPort &&
 			!cfg.TLS.NoRedirect &&
 			!hostHasOtherPort(allConfigs, i, httpPort) &&
 			(cfg.Addr.Port == httpsPort || !hostHasOtherPort(allConfigs, i, httpsPort)) {
